@@ -18,10 +18,39 @@ def to_smt2(ob):
     return s.to_smt2()
 
 
+def _cvc5(text, timeout_ms, strings=False):
+    """-> (verdict, model text or None); anything but a clean sat / unsat answer is `unknown`"""
+    path = None
+    try:
+        with tempfile.NamedTemporaryFile("w", suffix=".smt2", delete=False) as fh:
+            fh.write("(set-logic ALL)\n" + text + ("\n(get-model)\n" if strings else ""))
+            path = fh.name
+        cmd = ["/usr/bin/cvc5", f"--tlimit={timeout_ms}"] + (["--strings-exp", "--produce-models"] if strings else []) + [path]
+        p = subprocess.run(cmd, capture_output=True, text=True, timeout=timeout_ms / 1000 + 5)
+        out = p.stdout.strip().splitlines()
+        if out and out[0] in ("unsat", "sat"):
+            return out[0], ("\n".join(out[1:])[:4000] if out[0] == "sat" and len(out) > 1 else None)
+    except Exception:
+        pass
+    finally:
+        try:
+            if path:
+                os.unlink(path)
+        except Exception:
+            pass
+    return "unknown", None
+
+
 def _solve_text(args):
     name, text, timeout_ms, use_cvc5 = args
     t0 = time.time()
     verdict, backend, model = "unknown", "z3", None
+    if use_cvc5 and "String" in text:
+        # obligations over SMT-LIB strings: cvc5 --strings-exp decides them in seconds, z3's sequence solver does not terminate
+        # on them within the budget (measured) -- cvc5 first, z3 only for what cvc5 leaves open
+        v, m = _cvc5(text, timeout_ms, strings=True)
+        if v in ("unsat", "sat"):
+            return name, v, "cvc5", round(time.time() - t0, 3), m
     try:
         s = z3.Solver()
         s.set("timeout", timeout_ms)
@@ -35,23 +64,10 @@ def _solve_text(args):
                 model = None
     except Exception as ex:  # parser/solver crash: undecided, never a violation
         verdict, model = "unknown", f"z3 error: {ex}"
-    if verdict == "unknown" and use_cvc5:
-        try:
-            with tempfile.NamedTemporaryFile("w", suffix=".smt2", delete=False) as fh:
-                fh.write("(set-logic ALL)\n" + text)
-                path = fh.name
-            p = subprocess.run(["/usr/bin/cvc5", f"--tlimit={timeout_ms}", path],
-                               capture_output=True, text=True, timeout=timeout_ms / 1000 + 5)
-            out = p.stdout.strip().splitlines()
-            if out and out[0] in ("unsat", "sat"):
-                verdict, backend = out[0], "cvc5"
-        except Exception:
-            pass
-        finally:
-            try:
-                os.unlink(path)
-            except Exception:
-                pass
+    if verdict == "unknown" and use_cvc5 and "String" not in text:
+        v, m = _cvc5(text, timeout_ms)
+        if v in ("unsat", "sat"):
+            verdict, backend = v, "cvc5"
     return name, verdict, backend, round(time.time() - t0, 3), model
 
 
